@@ -6,8 +6,9 @@ export GOFLAGS=-mod=mod GOPROXY=off GOSUMDB=off GOTOOLCHAIN=local
 mkdir -p .build evidence replays ocaml/_build
 # 1. translator, generated kernel
 (cd tools/gotrans && go build -o ../../.build/gotrans .)
-.build/gotrans kernel /repo coq/gen/KernelGen.v
-.build/gotrans skel /repo coq/gen/Skeleton.v
+REPO="${VERIF_REPO:-/repo}"
+.build/gotrans kernel "$REPO" coq/gen/KernelGen.v
+.build/gotrans skel "$REPO" coq/gen/Skeleton.v
 # 2. gate: no axioms / admits anywhere
 if grep -rnE '^\s*(Axiom|Axioms|Parameter|Parameters|Conjecture|Admitted|Admit Obligations)\b|\badmit\b|Unset Guard|bypass_check' --include=*.v coq | grep -v '^coq/gen/'; then
   echo "forbidden declaration found" >&2; exit 1
@@ -18,6 +19,8 @@ fi
 # 4. extraction + OCaml model binary
 (cd ocaml/_build && coqc -R ../../coq ZV ../../coq/Extract.v) && ocaml/build.sh
 # 5. harness binaries (both tag sets; race variants are built on demand)
-cp /repo/go.sum harness/go.sum 2>/dev/null || true
-(cd harness && go build -tags verif -o ../.build/zcheck-verif ./cmd/zcheck && go build -tags verif,vectors -o ../.build/zcheck-verif-vectors ./cmd/zcheck)
+cp "$REPO/go.sum" harness/go.sum 2>/dev/null || true
+if [ "$REPO" = "/repo" ]; then
+  (cd harness && go build -tags verif -o ../.build/zcheck-verif ./cmd/zcheck && go build -tags verif,vectors -o ../.build/zcheck-verif-vectors ./cmd/zcheck)
+fi
 echo "setup ok"
